@@ -431,22 +431,43 @@ class SysLzma:
         return None if c is None else self._dec(filt, c, len(data))
 
 
+def wellformed(slices, n):
+    """LZMA_RUN slices only (the drain supplies LZMA_FINISH), or one finishing call that offers all the input."""
+    if slices == "-":
+        return True
+    sl = [tuple(int(x) for x in s.split(":")) for s in slices.split(",")]
+    return all(a == 0 for _, _, a in sl) or (len(sl) == 1 and sl[0][2] == 3 and sl[0][0] >= n)
+
+
 def third_opinion(sysl, line):
     """Expected whole-stream output of a well-formed op according to the system liblzma, or None when it cannot say."""
     t = line.split()
     hx = lambda s: b"" if s == "-" else bytes.fromhex(s)
     try:
-        if t[0] == "stream" and ":3" not in t[6].replace(":3,", ":X,")[:-2] and ":1" not in t[6] and ":2" not in t[6]:
-            off = int(t[4])
-            if off % ALIGN[t[1]]:
+        if t[0] == "stream":
+            off, data = int(t[4]), hx(t[5])
+            if off % ALIGN[t[1]] or not wellformed(t[6], len(data)):
                 return None
-            return sysl.apply(FILTER_ID[t[1]], off, t[2] == "1", hx(t[5]))
+            return sysl.apply(FILTER_ID[t[1]], off, t[2] == "1", data)
+        if t[0] == "dstream":
+            data = hx(t[4])
+            if not wellformed(t[5], len(data)) or not 1 <= int(t[3]) <= 256:
+                return None
+            return sysl.apply(DELTA_ID, int(t[3]), t[1] == "1", data)
         if t[0] in ("delta", "deltax"):
             return sysl.apply(DELTA_ID, int(t[2]), t[1] == "1", hx(t[3]))
-        if t[0] == "oneshot":
-            return None
     except Exception:
         return None
+    return None
+
+
+def impl_whole(line, res):
+    """Whole-stream output of the implementation for an op the third opinion can judge (None if the stream did not end)."""
+    if line.startswith(("stream", "dstream")):
+        o, ended = stream_out(res)
+        return o if ended else None
+    if line.startswith(("delta ", "deltax")):
+        return b"" if res == "-" else bytes.fromhex(res)
     return None
 
 
@@ -656,9 +677,7 @@ def run(ctx):
             if mism > 6:
                 continue
             exp = third_opinion(sysl, ln)
-            impl_stream = stream_out(c_out[i])[0] if ln.startswith(("stream", "dstream")) else (None if c_out[i] == "-" else None)
-            if ln.startswith(("delta ", "deltax")):
-                impl_stream = b"" if c_out[i] == "-" else bytes.fromhex(c_out[i])
+            impl_stream = impl_whole(ln, c_out[i])
             replay = {"kind": "implementation output differs from the reference model", "op": ln, "impl": c_out[i], "model": m_out[i],
                       "how_to_replay": "echo '<op>' | .cache/harness-asan/c15   and   | lean/.lake/build/bin/xzm_c15"}
             if exp is not None and impl_stream is not None:
@@ -689,12 +708,9 @@ def run(ctx):
             exp = third_opinion(sysl, ln)
             if exp is None:
                 continue
-            if ln.startswith(("stream", "dstream")):
-                got, ended = stream_out(c_out[i])
-                if not ended:
-                    continue
-            else:
-                got = b"" if c_out[i] == "-" else bytes.fromhex(c_out[i])
+            got = impl_whole(ln, c_out[i])
+            if got is None:
+                continue
             checked += 1
             if got != exp:
                 bad += 1
